@@ -269,6 +269,7 @@ def optimize_acqf_discrete(
     # Either a fantasy update or a full update, i.e., adding samples along the way.
 
     chosen = 0
+    q = min(q, len(choices))  # There cannot be more candidates than choices.
     while chosen < q:
         acq_values = acq(choices)
 
@@ -308,9 +309,12 @@ def optimize_decoupled_acqf_discrete(
         curr_candidate_list, curr_acq_values = optimize_acqf_discrete(acq, q, choices)
         candidate_list = np.concatenate([candidate_list, curr_candidate_list], axis=0)
         acq_values = np.concatenate([acq_values, curr_acq_values], axis=0)
-        eval_indices = np.concatenate([eval_indices, np.full(q, fill_value=eval_i)], axis=0)
+        eval_indices = np.concatenate(
+            [eval_indices, np.full(len(curr_acq_values), fill_value=eval_i)], axis=0
+        )
 
     # Find indices of the highest q elements
+    q = min(q, len(acq_values))
     indices = np.argpartition(acq_values, -q)[-q:]
     # Sort these indices by the actual values
     indices = indices[np.argsort(acq_values[indices])[::-1]]
